@@ -36,6 +36,7 @@ type HMCase struct {
 	Req  string   `json:"req"`
 	O    HMOpts   `json:"o"`
 	Ty   string   `json:"ty"`
+	Lvl  string   `json:"lvl"` // root | nbs (the field sits in a struct annotated api.no_body_struct)
 }
 
 var hmVals = map[string]int{"query": 11, "path": 12, "header": 13, "cookie": 14, "form": 15, "body": 16, "member": 17}
@@ -64,6 +65,10 @@ func (c *c17) desc(hc HMCase) *thrift.TypeDescriptor {
 		ty = "string"
 	}
 	idl := fmt.Sprintf("namespace go hm\nstruct Req {\n  1: %s%s f (%s)\n  2: optional string plain\n}\nservice S { Req M(1: Req r) }\n", reqWord(hc.Req), ty, strings.Join(an, ", "))
+	if hc.Lvl == "nbs" {
+		idl = fmt.Sprintf("namespace go hm\nstruct Inner {\n  1: %s%s f (%s)\n}\nstruct Req {\n  1: Inner inner (api.no_body_struct = \"\")\n  2: optional string plain\n}\nservice S { Req M(1: Req r) }\n",
+			reqWord(hc.Req), ty, strings.Join(an, ", "))
+	}
 	if d, ok := c.descs[idl]; ok {
 		return d
 	}
@@ -122,7 +127,10 @@ func (c *c17) run(hc HMCase) {
 		bodyBytes = []byte(f.Encode())
 		ctype = "application/x-www-form-urlencoded"
 	}
-	ev := map[string]interface{}{"ev": "HM", "anns": hc.Anns, "have": hc.Have, "body": hc.Body, "req": hc.Req, "o": hc.O, "ty": hc.Ty,
+	if hc.Lvl == "" {
+		hc.Lvl = "root"
+	}
+	ev := map[string]interface{}{"ev": "HM", "anns": hc.Anns, "have": hc.Have, "body": hc.Body, "req": hc.Req, "o": hc.O, "ty": hc.Ty, "lvl": hc.Lvl,
 		"st": "ok", "got": "other", "plain": false, "case": hc}
 	func() {
 		defer func() {
@@ -171,7 +179,20 @@ func (c *c17) run(hc HMCase) {
 		}
 		got := "absent"
 		cnt := 0
-		for _, f := range v.F {
+		fields := v.F
+		if hc.Lvl == "nbs" {
+			// the annotated field is member 1 of the struct-typed field 1
+			var inner []Field
+			for _, f := range v.F {
+				if f.ID == 1 && f.V.T == 12 {
+					inner = f.V.F
+				} else if f.ID == 2 {
+					ev["plain"] = string(f.V.B) == "pp"
+				}
+			}
+			fields = inner
+		}
+		for _, f := range fields {
 			switch f.ID {
 			case 1:
 				cnt++
